@@ -120,6 +120,8 @@ type Term struct {
 	Aux  uint32
 	Name string // variables
 	UMax uint64 // unsigned upper bound for BV<=64 terms (sound over-approximation)
+	SLo  int64  // signed range (sound over-approximation) for BV<=64 terms
+	SHi  int64
 }
 
 func (t *Term) IsConst() bool { return t.Op == OConst }
@@ -183,6 +185,7 @@ func (c *Ctx) mk(t *Term) *Term {
 	t.ID = len(c.All)
 	if t.S.K == KBV && t.S.W <= 64 {
 		t.UMax = c.umax(t)
+		t.SLo, t.SHi = c.srange(t)
 	}
 	c.All = append(c.All, t)
 	c.terms[k] = t
@@ -287,6 +290,168 @@ func (c *Ctx) umax(t *Term) uint64 {
 		return m
 	}
 	return m
+}
+
+func sfull(w uint16) (int64, int64) {
+	if w >= 64 {
+		return -1 << 63, 1<<63 - 1
+	}
+	return -(int64(1) << (w - 1)), int64(1)<<(w-1) - 1
+}
+
+func addOv(a, b int64) (int64, bool) {
+	r := a + b
+	if (a > 0 && b > 0 && r < 0) || (a < 0 && b < 0 && r >= 0) {
+		return 0, true
+	}
+	return r, false
+}
+
+func mulOv(a, b int64) (int64, bool) {
+	if a == 0 || b == 0 {
+		return 0, false
+	}
+	r := a * b
+	if r/b != a || (a == -1 && b == -1<<63) || (b == -1 && a == -1<<63) {
+		return 0, true
+	}
+	return r, false
+}
+
+func abs64(a int64) int64 {
+	if a < 0 {
+		if a == -1<<63 {
+			return 1<<63 - 1
+		}
+		return -a
+	}
+	return a
+}
+
+// srange computes a signed interval for a BV term (sound over-approximation).
+func (c *Ctx) srange(t *Term) (int64, int64) {
+	lo, hi := sfull(t.S.W)
+	fits := func(a, b int64) (int64, int64) {
+		if a < lo || b > hi || a > b {
+			return lo, hi
+		}
+		return a, b
+	}
+	switch t.Op {
+	case OConst:
+		v := sext(t.Val, t.S.W)
+		return v, v
+	case OSExt:
+		return t.Args[0].SLo, t.Args[0].SHi
+	case OZExt:
+		if t.Args[0].UMax <= uint64(hi) {
+			return 0, int64(t.Args[0].UMax)
+		}
+	case OIte:
+		a, b := t.Args[1], t.Args[2]
+		l, h := a.SLo, a.SHi
+		if b.SLo < l {
+			l = b.SLo
+		}
+		if b.SHi > h {
+			h = b.SHi
+		}
+		return l, h
+	case OAdd:
+		a, b := t.Args[0], t.Args[1]
+		l, o1 := addOv(a.SLo, b.SLo)
+		h, o2 := addOv(a.SHi, b.SHi)
+		if !o1 && !o2 {
+			return fits(l, h)
+		}
+	case OSub:
+		a, b := t.Args[0], t.Args[1]
+		if b.SHi != -1<<63 && b.SLo != -1<<63 {
+			l, o1 := addOv(a.SLo, -b.SHi)
+			h, o2 := addOv(a.SHi, -b.SLo)
+			if !o1 && !o2 {
+				return fits(l, h)
+			}
+		}
+	case ONeg:
+		a := t.Args[0]
+		if a.SLo != -1<<63 {
+			return fits(-a.SHi, -a.SLo)
+		}
+	case OMul:
+		a, b := t.Args[0], t.Args[1]
+		var cs [4]int64
+		ov := false
+		for i, p := range [][2]int64{{a.SLo, b.SLo}, {a.SLo, b.SHi}, {a.SHi, b.SLo}, {a.SHi, b.SHi}} {
+			r, o := mulOv(p[0], p[1])
+			ov = ov || o
+			cs[i] = r
+		}
+		if !ov {
+			l, h := cs[0], cs[0]
+			for _, v := range cs[1:] {
+				if v < l {
+					l = v
+				}
+				if v > h {
+					h = v
+				}
+			}
+			return fits(l, h)
+		}
+	case OSDiv, OSRem:
+		a := t.Args[0]
+		m := abs64(a.SLo)
+		if abs64(a.SHi) > m {
+			m = abs64(a.SHi)
+		}
+		if m < 1<<62 {
+			// |a/b| <= |a| (b != 0; b == 0 gives +-1 in SMT-LIB), |a%b| <= |a|
+			if m < 1 {
+				m = 1
+			}
+			return fits(-m, m)
+		}
+	case OSelect:
+		tb := c.Tables[t.Aux]
+		l, h := sext(tb.Vals[0], t.S.W), sext(tb.Vals[0], t.S.W)
+		for _, v := range tb.Vals {
+			sv := sext(v, t.S.W)
+			if sv < l {
+				l = sv
+			}
+			if sv > h {
+				h = sv
+			}
+		}
+		return l, h
+	default:
+		if t.UMax <= uint64(hi) {
+			return 0, int64(t.UMax)
+		}
+	}
+	if t.UMax <= uint64(hi) && t.Op != OVar {
+		return 0, int64(t.UMax)
+	}
+	return lo, hi
+}
+
+// narrowW returns a width (16 or 32) in which signed operands a and b can be
+// computed exactly, or 0.
+func narrowW(a, b *Term) int {
+	m := abs64(a.SLo)
+	for _, v := range []int64{a.SHi, b.SLo, b.SHi} {
+		if abs64(v) > m {
+			m = abs64(v)
+		}
+	}
+	switch {
+	case m < 1<<7:
+		return 16
+	case m < 1<<15:
+		return 32
+	}
+	return 0
 }
 
 // ---------- constructors ----------
@@ -558,6 +723,14 @@ func (c *Ctx) BinBV(op Op, a, b *Term) *Term {
 		}
 		return c.Const(s, r)
 	}
+	if w == 64 && (op == OSDiv || op == OSRem || op == OMul) && !a.IsConst() && !b.IsConst() {
+		// both operands provably small: compute in a narrow width (the
+		// products / quotients fit, so the sign-extended result is exact)
+		if nw := narrowW(a, b); nw > 0 {
+			na, nb := c.Extract(a, nw-1, 0), c.Extract(b, nw-1, 0)
+			return c.SExt(c.bin(op, BV(nw), na, nb), 64)
+		}
+	}
 	if w <= 64 {
 		switch op {
 		case OAdd, OBOr, OBXor:
@@ -637,24 +810,21 @@ func (c *Ctx) Cmp(op Op, a, b *Term) *Term {
 				return c.F
 			}
 		case OSLt:
-			if signedOK {
-				if a.UMax < umin(b) {
-					return c.T
-				}
-				if umin(a) >= b.UMax {
-					return c.F
-				}
+			if a.SHi < b.SLo {
+				return c.T
+			}
+			if a.SLo >= b.SHi {
+				return c.F
 			}
 		case OSLe:
-			if signedOK {
-				if a.UMax <= umin(b) {
-					return c.T
-				}
-				if umin(a) > b.UMax {
-					return c.F
-				}
+			if a.SHi <= b.SLo {
+				return c.T
+			}
+			if a.SLo > b.SHi {
+				return c.F
 			}
 		}
+		_ = signedOK
 	} else if a.IsConst() && b.IsConst() {
 		switch op {
 		case OULt:
